@@ -377,6 +377,23 @@ macro_rules! len_portable {
 }
 len_portable!(le::U16, 2, false; le::U32, 4, false; le::U64, 8, false; be::U16, 2, true; be::U32, 4, true; be::U64, 8, true);
 
+/// Iterator adaptor with a loose (but legal) upper `size_hint` bound.
+struct Hinted<I>(I, bool);
+impl<I: Iterator> Iterator for Hinted<I> {
+    type Item = I::Item;
+    fn next(&mut self) -> Option<I::Item> {
+        self.0.next()
+    }
+    fn size_hint(&self) -> (usize, Option<usize>) {
+        let (lo, hi) = self.0.size_hint();
+        if self.1 {
+            (0, hi.map(|h| h.saturating_add(1000)))
+        } else {
+            (lo, hi)
+        }
+    }
+}
+
 fn vec_items(v: &Value) -> &[Value] {
     match v {
         Value::Vec(i) => i,
@@ -397,7 +414,9 @@ impl<T: SizedNode, L: LenNode> Node for FlatVec<T, L> {
     unsafe fn emplace_value_unchecked<'a>(bytes: &'a mut [u8], v: &Value, kind: Kind) -> Result<&'a mut Self, Error> {
         let items = vec_items(v);
         match kind {
-            Kind::Iter => vec::FromIterator(items.iter().map(T::from_value)).emplace_unchecked(bytes),
+            // an iterator only promises its LOWER size_hint bound: every other length is offered with an upper bound far
+            // above the real count (what `filter` / `take_while` adaptors report), the rest with the exact one
+            Kind::Iter => vec::FromIterator(Hinted(items.iter().map(T::from_value), items.len() % 2 == 1)).emplace_unchecked(bytes),
             Kind::Literal => match items.len() {
                 0 => {
                     let e: vec::FromArray<T, 0> = flatty::flat_vec![];
@@ -407,6 +426,10 @@ impl<T: SizedNode, L: LenNode> Node for FlatVec<T, L> {
                 2 => flatty::flat_vec![T::from_value(&items[0]), T::from_value(&items[1])].emplace_unchecked(bytes),
                 3 => vec::FromArray::<T, 3>(core::array::from_fn(|i| T::from_value(&items[i]))).emplace_unchecked(bytes),
                 4 => vec::FromArray::<T, 4>(core::array::from_fn(|i| T::from_value(&items[i]))).emplace_unchecked(bytes),
+                // arrays around the maximum of a one-byte length type: more items than the length type can count
+                255 => vec::FromArray::<T, 255>(core::array::from_fn(|i| T::from_value(&items[i]))).emplace_unchecked(bytes),
+                256 => vec::FromArray::<T, 256>(core::array::from_fn(|i| T::from_value(&items[i]))).emplace_unchecked(bytes),
+                257 => vec::FromArray::<T, 257>(core::array::from_fn(|i| T::from_value(&items[i]))).emplace_unchecked(bytes),
                 _ => vec::FromIterator(items.iter().map(T::from_value)).emplace_unchecked(bytes),
             },
             Kind::Grow => {
